@@ -8,6 +8,8 @@ git checkout -q -- .
 CMD=$(grep -h -o 'go test [^`]*' $S/demo_test.go | grep -v '\./\.\.\.' | head -1 | sed 's/[[:space:]]*$//')
 [ -z "$CMD" ] && CMD=$(grep -h -o 'go test [^`]*' $S/README.md | grep -v '\./\.\.\.' | head -1)
 echo "demo cmd: $CMD"
+DD=$(echo "$CMD" | grep -o '\./[A-Za-z0-9_/.-]*' | tail -1 | sed 's#/\.\.\.$##')
+if [ -n "$DD" ] && [ ! -f "$DD/demo_test.go" ]; then mkdir -p "$DD" && cp $S/demo_test.go "$DD/"; fi
 sh -c "$CMD" > /tmp/seedconf.$ID.$V.base 2>&1; B=$?
 git apply $S/patch.diff || { echo "APPLY-FAILED"; exit 1; }
 go build ./... > /tmp/seedconf.$ID.$V.build 2>&1; C=$?
